@@ -184,6 +184,20 @@ def run(ctx):
                     ctx.report(name, 'different keys share an identity', dict(a, sig=form + ':' + (differ[0] if len(differ) == 1 else 'several parameters')),
                                dict(protocol=name, params=a, other=rec2['a'], str=[rec['str'], rec2['str']], int=[rec['int'], rec2['int']]))
                     break
+                if key2 != key and len(c.normalized_rlc) > 1 and len(rec2['code'].normalized_rlc) == len(c.normalized_rlc):
+                    # codes of several frames: a code must not equal the frame list of another key (also when the first frames agree)
+                    try:
+                        other = [list(f) for f in rec2['code'].normalized_rlc]
+                        mine = [list(f) for f in c.normalized_rlc]
+                        if other != mine and bool(c == other):
+                            hits[name] = True
+                            differ = sorted(k for k in a if a[k] != rec2['a'].get(k))
+                            ctx.report(name, 'code equals the timings of another key',
+                                       dict(a, sig=(differ[0] if len(differ) == 1 else 'several parameters')),
+                                       dict(protocol=name, params=a, other=rec2['a'], frames=len(mine)))
+                            break
+                    except Exception:  # noqa
+                        pass
                 if key2 != key and 'got' in rec2 and len(c.normalized_rlc) == 1:
                     try:
                         if rec2['got'] == list(c.normalized_rlc[0]):
